@@ -680,6 +680,8 @@ func (g *gen) buildPool() pool {
 	add(credgen.Spec{Schema: ssAll, Subject: did, SubjectTypes: []string{ssAll.TypeName, "VerifiableCredential"}})
 	add(credgen.Spec{Schema: ms, Subject: did, SubjectTypes: []string{ms.TypeName, "VerifiableCredential"}, TopTypes: []string{"VerifiableCredential", ms.TypeName, "VerifiablePresentation"}})
 	add(credgen.Spec{Schema: ssAll, SubjectTypes: []string{ssAll.TypeName}})
+	// an empty subject id
+	add(credgen.Spec{Schema: ms, Subject: ""})
 	// a subject id that is not a string
 	add(credgen.Spec{Schema: ms, Subject: 12345})
 	add(credgen.Spec{Schema: ms, Subject: true})
